@@ -194,7 +194,11 @@ func isLenMinus(v, x ssa.Value) (int64, bool) {
 }
 
 // proveIndex tries to show 0 <= idx < len(x) (strict) or <= len(x) (slice bound).
-func proveIndex(x, idx ssa.Value, instr ssa.Instruction, strict bool) (bool, string) {
+func proveIndex(ls *LenState, x, idx ssa.Value, instr ssa.Instruction, strict bool) (bool, string) {
+	minLen := func(x ssa.Value, instr ssa.Instruction) (int64, string) {
+		n := ls.At(x, instr)
+		return n, ls.describe(n)
+	}
 	if n, ok := staticLen(x.Type()); ok {
 		if k, ok := ConstInt(idx); ok {
 			if k >= 0 && (k < n || (!strict && k == n)) {
@@ -215,7 +219,7 @@ func proveIndex(x, idx ssa.Value, instr ssa.Instruction, strict bool) (bool, str
 		if need == 0 {
 			return true, "index 0 as a slice bound"
 		}
-		got, why := minLenFromFacts(x, instr)
+		got, why := minLen(x, instr)
 		if got >= need {
 			return true, why
 		}
@@ -226,7 +230,7 @@ func proveIndex(x, idx ssa.Value, instr ssa.Instruction, strict bool) (bool, str
 		if strict && k == 0 {
 			return false, "index len(x) is out of range"
 		}
-		got, why := minLenFromFacts(x, instr)
+		got, why := minLen(x, instr)
 		if got >= k {
 			return true, "index len-" + fmt.Sprint(k) + ", " + why
 		}
@@ -235,7 +239,7 @@ func proveIndex(x, idx ssa.Value, instr ssa.Instruction, strict bool) (bool, str
 	if lx, ok := lenOf(idx); ok && !strict {
 		// x[len(p):] : need len(x) >= len(p)
 		if s, ok := ConstString(lx); ok {
-			got, why := minLenFromFacts(x, instr)
+			got, why := minLen(x, instr)
 			if got >= int64(len(s)) {
 				return true, why
 			}
@@ -307,20 +311,21 @@ func nonNegative(v ssa.Value) bool {
 // BoundsOf enumerates the bounds obligations of fn (not nested literals).
 func BoundsOf(fn *ssa.Function) []BoundOb {
 	var out []BoundOb
+	ls := LenFlow(fn)
 	Instrs(fn, func(in ssa.Instruction) {
 		switch x := in.(type) {
 		case *ssa.Lookup:
 			if _, isMap := x.X.Type().Underlying().(*types.Map); isMap {
 				return
 			}
-			ok, why := proveIndex(x.X, x.Index, x, true)
+			ok, why := proveIndex(ls, x.X, x.Index, x, true)
 			out = append(out, BoundOb{x, descIdx(x.X, x.Index), ok, why})
 		case *ssa.IndexAddr:
-			ok, why := proveIndex(x.X, x.Index, x, true)
+			ok, why := proveIndex(ls, x.X, x.Index, x, true)
 			// varargs packing: new [n]T; &t[k] with constant in range is covered by staticLen
 			out = append(out, BoundOb{x, descIdx(x.X, x.Index), ok, why})
 		case *ssa.Index:
-			ok, why := proveIndex(x.X, x.Index, x, true)
+			ok, why := proveIndex(ls, x.X, x.Index, x, true)
 			out = append(out, BoundOb{x, descIdx(x.X, x.Index), ok, why})
 		case *ssa.Slice:
 			if x.Low == nil && x.High == nil && x.Max == nil {
@@ -328,12 +333,12 @@ func BoundsOf(fn *ssa.Function) []BoundOb {
 			}
 			okAll, why := true, ""
 			if x.High != nil {
-				ok, w := proveIndex(x.X, x.High, x, false)
+				ok, w := proveIndex(ls, x.X, x.High, x, false)
 				okAll, why = okAll && ok, w
 			}
 			if x.Low != nil && okAll {
 				if x.High == nil {
-					ok, w := proveIndex(x.X, x.Low, x, false)
+					ok, w := proveIndex(ls, x.X, x.Low, x, false)
 					okAll, why = ok, w
 				} else if k, ok := ConstInt(x.Low); !ok || k != 0 {
 					// low <= high
